@@ -5,6 +5,24 @@ import json, os
 ROOT = os.path.dirname(os.path.dirname(os.path.abspath(__file__)))
 ALL = ["C%02d" % i for i in range(1, 21)]
 CHECKS = {
+  "C15": dict(
+    technique="property-based testing against a reference model (proptest): ModuleGraph::walk vs a set-based reachability model over the graph's recorded dependencies, all 36 option combinations per graph",
+    text="Generated-input search with a reference-model oracle: the yielded set (both inclusions, no duplicates), the entry attached to each yielded specifier and the multiset of reported errors are compared with engine/src/refwalk.rs for every option combination, drawn root subsets and skip sets. Exploration: bounded by the generated graphs.",
+    design_ref="DESIGN.md §4 C15",
+    note="Trusted: proptest; the reference walk (written from the WalkOptions rustdoc and the statement); graphs come from the shared world generator.",
+  ),
+  "C18": dict(
+    technique="property-based metamorphic + differential testing (proptest): segment(R) vs the original graph (every dependency lookup, validation, error listing) and vs build(R)",
+    text="Generated-input search with two oracles: (a) metamorphic self-containment - every dependency of every module of the segment resolves (both type preferences) to the same module or error as in the original, same validation verdicts and error listings from the segment roots; (b) differential - entries, redirects and serialised modules equal a direct build of the segment roots when those were not roots of the original. Exploration only.",
+    design_ref="DESIGN.md §4 C18",
+    note="Trusted: proptest and the harness loader. Known findings (context-sensitive acceptance of unknown/JSON answers, source-map assets) are listed in known_findings.json; domain restrictions are in the evidence assumptions.",
+  ),
+  "C19": dict(
+    technique="property-based testing over generated histories (proptest): sequences of build() calls, rebuilds and edit+reload() rounds vs from-scratch builds",
+    text="Generated histories (partition of the roots into successive builds, rebuild of a known root, up to three rounds of source edits each followed by reload of the changed specifiers) checked against a from-scratch build of the same / the edited sources: equal entries, serialised modules and redirects for everything the fresh graph contains, untouched entries byte-identical, no loads and no change when a known root is built again. Exploration only.",
+    design_ref="DESIGN.md §4 C19",
+    note="Trusted: proptest and the harness loader. Worlds carry no `type` attributes or source-map URLs (the attribute class of a target must be stable over time); context-sensitive acceptance divergences are known findings.",
+  ),
   "C17": dict(
     technique="property-based differential testing (proptest): build(All)+prune_types vs build(CodeOnly) over generated module worlds",
     text="Generated-input search with a differential oracle: for each generated world the pruned full graph is compared with an independent code-only build on entries, redirects, code edges, validation verdict and error listing. Exploration only: absence of counterexamples inside the generated bounds, not a proof.",
